@@ -14,23 +14,25 @@ Proof. induction l as [|x l IH]; simpl; [reflexivity|]. rewrite insert_q_perm. n
 
 Lemma in_execs cfg s e :
   In e (so_execs (observe cfg s)) ->
-  exists q, In q (queues s) /\ q_name q = eo_queue e /\ is_running q = true.
+  exists q, In q (queues s) /\ q_name q = eo_queue e /\ in_handler q = true.
 Proof.
   unfold observe. cbn [so_execs]. intros H. apply in_flat_map in H as [q [Hq He]].
   apply (Permutation_in _ (sort_queues_perm _)) in Hq.
-  unfold is_running. destruct (q_running q) eqn:R; [|destruct He].
-  destruct (q_items q); [destruct He|]. destruct He as [<-|[]]. exists q. simpl. rewrite R. auto.
+  unfold in_handler, is_running. destruct (q_running q) eqn:R; [|destruct He].
+  destruct (q_items q); [destruct He|]. destruct (q_delay q) eqn:D; [destruct He|].
+  destruct He as [<-|[]]. exists q. simpl. rewrite R, D. auto.
 Qed.
 
 Lemma execs_of_running cfg s q :
-  In q (queues s) -> is_running q = true -> q_items q <> [] ->
+  In q (queues s) -> in_handler q = true -> q_items q <> [] ->
   exists e, In e (so_execs (observe cfg s)) /\ eo_queue e = q_name q.
 Proof.
-  intros Hq R I. unfold observe. cbn [so_execs]. unfold is_running in R.
+  intros Hq R I. unfold observe. cbn [so_execs]. unfold in_handler, is_running in R.
   destruct (q_running q) eqn:Rq; [|discriminate]. destruct (q_items q) as [|t r] eqn:Iq; [contradiction|].
+  destruct (q_delay q) eqn:Dq; [discriminate|].
   eexists. split.
   - apply in_flat_map. exists q. split; [apply (Permutation_in _ (Permutation_sym (sort_queues_perm _))), Hq|].
-    rewrite Rq, Iq. left. reflexivity.
+    rewrite Rq, Iq, Dq. left. reflexivity.
   - reflexivity.
 Qed.
 
@@ -63,35 +65,53 @@ Proof.
     destruct (NN R') as (_ & _ & Rq).
     assert (Hname : q_name q' = q_name q).
     { rewrite <- Eq. unfold step_q.
-      assert (F1 : forall ok stp, q_name (finish_one ok stp q) = q_name q).
-      { intros. unfold finish_one. destruct (q_running q); [|reflexivity]. destruct (q_items q); [reflexivity|].
-        destruct stp; [reflexivity|]. destruct (ok || t_allow t); reflexivity. }
+      assert (F1 : forall ok stp w, q_name (finish_one ok stp w q) = q_name q) by (intros; apply finish_one_name).
       assert (F2 : forall x, q_name (adv_one cfg (has_queue (queues s)) x) = q_name x).
       { intros x. unfold adv_one. destruct (is_running x); [reflexivity|].
         destruct (advance_q _ _ _ _ _) as [[it ru] sh]. reflexivity. }
       destruct a; cbn [is_stop]; rewrite ?orb_false_r, ?orb_true_r;
         try (destruct (stopped s); [reflexivity | rewrite F2; reflexivity]); try reflexivity.
-      - destruct (stopped s); [|rewrite F2]; destruct (N.eqb (q_name q) q0); rewrite ?F1; reflexivity. }
+      - destruct (stopped s); [|rewrite F2]; destruct (N.eqb (q_name q) q0); rewrite ?F1; reflexivity.
+      - destruct (stopped s); [|rewrite F2]; destruct (N.eqb (q_name q) q0); rewrite ?F1; reflexivity.
+      - destruct (stopped s); [|rewrite F2]; destruct (N.eqb (q_name q) q0); rewrite ?elapse_one_name; reflexivity. }
     assert (B : q_items q <> []).
-    { destruct HI as [_ I2 _]. rewrite Forall_forall in I2. apply (I2 q Hq Rq). }
+    { destruct HI as [_ I2 _ _]. rewrite Forall_forall in I2. apply (I2 q Hq).
+      unfold in_handler in Rq. now apply andb_true_iff in Rq as [Rq _]. }
     destruct (execs_of_running cfg s q Hq Rq B) as [e0 [He0 En0]].
     destruct (find_e_some (eo_queue e) _ e0 He0) as [e1 F]; [congruence|]. rewrite F.
     destruct a; cbn [ended_queue]; try reflexivity.
-    (* Finish q0: had it been this queue, the queue would not be in a handler any more *)
-    destruct (N.eqb q0 (eo_queue e)) eqn:E0; [|reflexivity]. exfalso.
-    apply N.eqb_eq in E0. destruct Hs as [St|Hx]; [|discriminate].
-    assert (Eq0 : q0 = q_name q) by congruence. subst q0.
-    destruct (handler_return_stops_worker cfg s q ok HI Hq St) as [Rn _]. cbv zeta in Rn.
-    rewrite <- Eq0, Eq in Rn. congruence. }
+    - (* Finish q0: had it been this queue, the queue would not be in a handler any more *)
+      destruct (N.eqb q0 (eo_queue e)) eqn:E0; [|reflexivity]. exfalso.
+      apply N.eqb_eq in E0. destruct Hs as [St|Hx]; [|discriminate].
+      assert (Eq0 : q0 = q_name q) by congruence. subst q0.
+      destruct (handler_return_stops_worker cfg s q ok HI Hq St) as [Rn _]. cbv zeta in Rn.
+      rewrite <- Eq0, Eq in Rn. congruence.
+    - (* FinishWait q0 *)
+      destruct (N.eqb q0 (eo_queue e)) eqn:E0; [|reflexivity]. exfalso.
+      apply N.eqb_eq in E0. destruct Hs as [St|Hx]; [|discriminate].
+      assert (Eq0 : q0 = q_name q) by congruence. subst q0.
+      assert (Rn : in_handler q' = false).
+      { rewrite <- Eq, Eq0. unfold step_q. rewrite St, N.eqb_refl. cbn [orb]. unfold finish_one.
+        unfold in_handler, is_running in Rq. destruct (q_running q) eqn:R1; [|discriminate].
+        destruct (q_items q) eqn:I1; [contradiction|]. destruct (q_delay q) eqn:D1; [discriminate|]. reflexivity. }
+      congruence. }
   apply filter_none. exact G.
 Qed.
 
 Lemma worker_flags cfg s :
-  forallb (fun q => if stopped s then Bool.eqb (qo_worker_stopped q) (negb (qo_running q))
+  forallb (fun q => if stopped s then Bool.eqb (qo_worker_stopped q) (negb (qo_running q)) && negb (qo_delayed q)
                     else negb (qo_worker_stopped q)) (so_queues (observe cfg s)) = true.
 Proof.
   unfold observe. cbn [so_queues]. apply forallb_forall. intros q Hq. apply in_map_iff in Hq as [x [<- _]].
-  cbn [qo_worker_stopped qo_running]. destruct (stopped s); cbn; [apply Bool.eqb_reflx | reflexivity].
+  cbn [qo_worker_stopped qo_running qo_delayed]. destruct (stopped s); cbn; [|reflexivity].
+  now rewrite Bool.eqb_reflx, andb_false_r.
+Qed.
+
+Lemma no_delay_shown_after_stop cfg s : stopped s = true ->
+  forallb (fun q => negb (qo_delayed q)) (so_queues (observe cfg s)) = true.
+Proof.
+  intros St. unfold observe. cbn [so_queues]. apply forallb_forall. intros q Hq. apply in_map_iff in Hq as [x [<- _]].
+  cbn [qo_delayed]. rewrite St. now rewrite andb_false_r.
 Qed.
 
 Lemma step_keeps_queues cfg s a : queues s <> [] -> queues (step cfg s a) <> [].
@@ -108,10 +128,15 @@ Proof.
     destruct (queues s); [contradiction | discriminate].
   - intros E. pose proof (append_tasks_names (queues s) (kube_tasks cfg (unlocked s) mon obj)) as N. rewrite E in N.
     destruct (queues s); [contradiction | discriminate].
-  - pose proof (finish_in_names (queues s) q ok (stopped s) (unlocked s)) as N.
-    destruct (finish_in _ _ _ _ _) as [qs unl]. simpl in *. intros E. rewrite E in N.
+  - pose proof (finish_in_names (queues s) q ok (stopped s) false (unlocked s)) as N.
+    destruct (finish_in _ _ _ _ _ _) as [qs unl]. simpl in *. intros E. rewrite E in N.
     destruct (queues s); [contradiction | discriminate].
   - exact H.
+  - pose proof (finish_in_names (queues s) q false (stopped s) true (unlocked s)) as N.
+    destruct (finish_in _ _ _ _ _ _) as [qs unl]. simpl in *. intros E. rewrite E in N.
+    destruct (queues s); [contradiction | discriminate].
+  - intros E. pose proof (elapse_in_names (queues s) q) as N. rewrite E in N.
+    destruct (queues s); [contradiction | discriminate].
 Qed.
 
 (* states without queues (before Boot): nothing runs, whatever happens *)
@@ -133,9 +158,9 @@ Lemma idle_no_execs cfg s : (forall q, In q (queues s) -> q_running q = None) ->
 Proof.
   intros H. unfold observe. cbn [so_execs].
   assert (G : forall l, (forall q, In q l -> q_running q = None) ->
-              flat_map (fun q => match q_running q, q_items q with
-                                 | Some _, t :: _ => [mkEO (q_name q) (t_hook t) (map (render_ctx (hook_v0 cfg (t_hook t))) (t_ctxs t))]
-                                 | _, _ => [] end) l = []).
+              flat_map (fun q => match q_running q, q_items q, q_delay q with
+                                 | Some _, t :: _, false => [mkEO (q_name q) (t_hook t) (map (render_ctx (hook_v0 cfg (t_hook t))) (t_ctxs t))]
+                                 | _, _, _ => [] end) l = []).
   { induction l as [|x l IHl]; intros Hl; [reflexivity|]. simpl. rewrite (Hl x (or_introl eq_refl)). apply IHl.
     intros q Hq. apply Hl. now right. }
   apply G. intros q Hq. apply H. apply (Permutation_in _ (sort_queues_perm _)), Hq.
@@ -156,6 +181,8 @@ Proof.
     rewrite E. unfold advance. simpl. destruct (stopped s); simpl; intros [].
   - unfold advance. simpl. destruct (stopped s); simpl; intros [].
   - unfold advance. simpl. intros [].
+  - unfold advance. simpl. destruct (stopped s); simpl; intros [].
+  - unfold advance. simpl. destruct (stopped s); simpl; intros [].
 Qed.
 
 Lemma steps_ok_from cfg : forall acts s,
